@@ -424,6 +424,15 @@ fn ev_strategy() -> impl Strategy<Value = Ev> {
                     _ => Ev::Type(format!("load {}\nnext {}\nload {}\nnext 3", f, n, f)),
                 }
             }),
+        // `next N` far beyond one frame's worth of clock edges (307 200), on a program that keeps running;
+        // only one in sixteen of these is big (each costs N edges twice)
+        1 => (0u8..16, prop::sample::select(vec![65_535u32, 65_536, 70_000, 307_199, 307_200, 307_201, 400_000, 1_000_000]), 1u32..3000, any::<bool>())
+            .prop_map(|(sel, big, small, asm_mode)| {
+                let n = if sel == 0 { big } else { small };
+                // (Assembly step mode multiplies the cost by the instruction length: big counts only in Real mode)
+                let _ = asm_mode;
+                Ev::Type(format!("load counter.asm\nnext {}", n))
+            }),
         // two lines in a row that are equal, or equal up to letter case / blanks (history, repeated
         // commands, `load` of paths that differ only in case): '\n' inside a macro is the Enter key
         3 => (command_line(), any::<u32>(), 0u8..5).prop_map(|(l, mask, how)| {
@@ -749,7 +758,7 @@ pub fn run_script(sc: &Script) -> (Verdict, Stats) {
             // guards: never submit a huge `next` count or a crash-shaped program (known finding of C06)
             if k == Ev::Enter && !s.notification && !s.input.is_empty() {
                 match classify(&s.input) {
-                    Class::Valid(Cmd::Next(n)) if n > 20_000 => {
+                    Class::Valid(Cmd::Next(n)) if n > 1_200_000 || (n > 50_000 && s.shadow.step_mode() == StepMode::Assembly) => {
                         st.skipped_enter += 1;
                         continue;
                     }
